@@ -55,7 +55,8 @@ pub fn cases(ctx: &Ctx) -> Vec<Case> {
     let n = if ctx.quick() { 480 } else { 8000 };
     let nval = if ctx.quick() { 16 } else { 600 };
     let sizes = [Sz::lit(0), Sz::lit(1), Sz::lit(17), Sz::lit(300), Sz::lit(4096), Sz::lit(4097), Sz::new(0, 1, -17), Sz::new(0, 1, 1)];
-    let scheds: Vec<Vec<u32>> = vec![vec![], vec![1], vec![1, 2, 3, 4, 5, 6, 7], vec![4095], vec![100_000, 1], vec![16, 17]];
+    // (u32::MAX in a schedule: the write callback reports an interruption, EINTR, on that call)
+    let scheds: Vec<Vec<u32>> = vec![vec![], vec![1], vec![1, 2, 3, 4, 5, 6, 7], vec![4095], vec![100_000, 1], vec![16, 17], vec![u32::MAX, 5, 4095], vec![7, u32::MAX]];
     for i in 0..n {
         let layers = LAYER_COMBOS[i % 4];
         let nfiles = 1 + rng.usize_below(4);
@@ -192,6 +193,9 @@ pub fn run_case(ctx: &mut Ctx, c: &Case) {
     match c {
         Case::Create { prog: p, sched, fail_write_at, fail_flush_at, valgrind } => {
             ctx.count(if *valgrind { "create:valgrind" } else { "create:asan" });
+            if sched.contains(&u32::MAX) {
+                ctx.count("create:write_callback_reports_interruptions");
+            }
             let (sks, pubf, _) = write_keys(&dir, p);
             // translate the program; data comes from the C-side generator
             // the C API has no layer selection: the default configuration (compress + encrypt) is used
